@@ -13,7 +13,7 @@ inductive FKind where
   /-- exactly `len` elements of `elem` bytes, no count prefix (EPC96) -/
   | fixedArr (elem len : Nat)
   /-- u16 element count, then the elements -/
-  | arr (elem : Nat) (signed : Bool)
+  | arr (elem : Nat)
   /-- u16 byte count, then the bytes -/
   | str
   /-- u16 bit count, then ⌈n/8⌉ bytes -/
